@@ -293,7 +293,7 @@ var shimmed = map[string]map[string]string{
 	"time": {"Now": "Now", "Since": "Since", "Until": "Until", "After": "After", "Tick": "Tick", "Sleep": "Sleep",
 		"NewTimer": "NewTimer", "NewTicker": "NewTicker", "AfterFunc": "AfterFunc", "Timer": "Timer", "Ticker": "Ticker"},
 	"context":   {"WithTimeout": "WithTimeout", "WithCancel": "WithCancel", "WithDeadline": "WithDeadline"},
-	"sync":      {"Mutex": "Mutex", "RWMutex": "RWMutex", "WaitGroup": "WaitGroup", "Once": "Once", "Cond": "Cond", "NewCond": "NewCond"},
+	"sync":      {"Mutex": "Mutex", "RWMutex": "RWMutex", "WaitGroup": "WaitGroup", "Once": "Once", "Cond": "Cond", "NewCond": "NewCond", "Pool": "Pool"},
 	"math/rand": {"Shuffle": "Shuffle"},
 }
 
